@@ -87,7 +87,7 @@ def bounded_info():
                   "gaddlemaps._backend.Chi2Calculator.__call__ wrapped by a call counter (calls the real method; aborts and skips a run "
                   "beyond 20000 energy evaluations (80000 for the large thorough pairs); skipped runs are counted in guard.scope-evaluated-within-energy-budget)"],
         "assumptions": ["Python Monte-Carlo engine (cython_backend not importable; checked at run time, else undecided)",
-                        "generic positions: generated atoms are >= 0.06 nm apart, coordinates with three decimals",
+                        "generated atoms are >= 0.06 nm apart, coordinates with three decimals; generic positions except in the degenerate-geometry family",
                         "random streams sampled through np.random.seed(k), k in 0..2 (quick) / 0..4 (thorough); step budgets STEPS_FACTOR in {3,8,20} ({3,5} for pairs with a side > 8)",
                         "tolerance 1e-9 nm scaled by max(1, distance)"],
         "explanation": (
@@ -104,6 +104,11 @@ def bounded_info():
             "one run per option combination is repeated on a fresh Alignment (fresh Molecule objects read from the same files) for "
             "bit-identical determinism. Quick: combination k runs seed k mod 3 (+ its repeat), every 4th combination runs seeds 0..2; "
             "thorough: every combination runs seeds 0..4, three tree instances per size pair. A run whose optimiser exceeds the "
+            "Family degenerate-geometry: mobile trees (4/6/7 atoms, on-grid coordinates) with a hub whose first three bonded neighbours "
+            "are exactly collinear along x, y, z or (1,1,0) (trident, trident with tail, line through the hub with cross arms), as "
+            "start-mobile, end-mobile and tie, deformation subsets containing type 2, seeds 0..3 (quick) / 0..7 (thorough): the hub's "
+            "single-atom move proposes NaN coordinates, which must never reach Alignment.start/.end (a guard requires >= 20 % of the runs "
+            "to have evaluated such a proposal). A run whose optimiser exceeds the "
             "energy-evaluation budget is skipped and counted (flat energy landscapes make rounding noise reset the stop counter; "
             "termination is not part of C06). Must-fail guards evaluate the clause predicates on an ideal observation built from the "
             "input (scripted twin of a correct Alignment) with one deliberate corruption each."),
@@ -117,6 +122,9 @@ def bounded_info():
 # generators (own writers; oracle data kept next to the texts)
 
 HEAVY = ("C", "N", "O", "S")
+SCENARIOS = ("ctor", "setters", "reset")
+STEPS = (3, 8, 20)
+ENERGY_BUDGET = 20000
 
 
 def _rng(*key):
@@ -260,6 +268,90 @@ def gen_pair(seed, ns, ne, inst=0, cyclic=0):
     return {"start": s, "end": e, "gen": {"kind": "generated", "verif_seed": seed, "ns": ns, "ne": ne, "inst": inst, "cyclic": cyclic}}
 
 
+# ---- degenerate geometries: a hub of the mobile tree whose first three bonded neighbours are exactly collinear.
+# find_atom_random_displ then crosses two parallel difference vectors (exactly zero on these on-grid coordinates, also after a
+# common translation), normalises it and proposes NaN coordinates; the statement still demands finite coordinates.
+
+DEGENERATE_TEMPLATES = {
+    # name: (grid points in units of the spacing, as (along, across, out), hub index, bonds).  The three collinear neighbours
+    # of the hub have the lowest indices among the hub's neighbours (Molecule.bonds_distance lists neighbours in ascending order).
+    "trident-hub-last": ([(-1, 1, 0), (0, 1, 0), (1, 1, 0), (0, 0, 0)], 3, [(3, 0), (3, 1), (2, 3)]),
+    "trident-tail-hub-first": ([(0, 0, 0), (-1, 1, 0), (0, 1, 0), (2, 1, 0), (0, -1, 0), (0, 2, 1)], 0,
+                               [(0, 1), (0, 2), (0, 3), (4, 0), (2, 5)]),
+    "line-through-hub-cross": ([(-1, 0, 0), (1, 0, 0), (0, 0, 0), (2, 0, 0), (0, 1, 0), (0, -1, 1), (-1, 1, 1)], 2,
+                               [(2, 0), (1, 2), (2, 3), (2, 4), (5, 2), (6, 0)]),
+}
+DEGENERATE_AXES = ("x", "y", "z", "diag")
+
+
+def degenerate_mobile(role, template, axis, spacing=0.15, origin=(2.0, 1.5, 2.5)):
+    grid, hub, bonds = DEGENERATE_TEMPLATES[template]
+    xyz = []
+    for along, across, out in grid:
+        if axis == "x":
+            d = (along, across, out)
+        elif axis == "y":
+            d = (out, along, across)
+        elif axis == "z":
+            d = (across, out, along)
+        else:                       # collinear direction (1,1,0); dyadic spacing and origin: every difference is exact
+            d = (along + across, along - across, out)
+        sp = 0.125 if axis == "diag" else spacing
+        xyz.append([_r3(origin[k] + sp * d[k]) for k in range(3)])
+    n = len(xyz)
+    names = [("B" if i == hub else "C") + str(i + 1) for i in range(n)]
+    mol = {"molname": "M" + role, "names": names, "resnames": ["R%s1" % role] * n, "resids": [1] * n, "ids": list(range(1, n + 1)),
+           "xyz": xyz, "bonds": [list(b) for b in bonds], "constraint_idx": [], "n_res": 1, "hub": hub}
+    mol["gro"] = fmt_gro("B06 degenerate " + role, mol)
+    mol["itp"] = fmt_itp(mol)
+    return mol
+
+
+def hub_is_degenerate(mol):
+    """Own check (from the generated data) that the two vectors the displacement generator crosses are exactly parallel."""
+    hub = mol["hub"]
+    nb = sorted({b if a == hub else a for a, b in mol["bonds"] if hub in (a, b)})
+    if len(nb) < 3:
+        return False
+    P = np.array(mol["xyz"], dtype=float)
+    c = np.cross(P[nb[0]] - P[nb[2]], P[nb[0]] - P[nb[1]])
+    return bool(np.all(c == 0.0)) and is_acyclic(len(mol["names"]), mol["bonds"])
+
+
+def gen_degenerate_pair(seed, template, axis, role):
+    """role: 'start-mobile' (end larger), 'end-mobile' (start larger), 'tie' (equal sizes: end is the mobile one)."""
+    nm = len(DEGENERATE_TEMPLATES[template][0])
+    rng = _rng("degenerate", seed, template, axis, role)
+    nl = nm if role == "tie" else nm + 2
+    if role == "start-mobile":
+        s = degenerate_mobile("S", template, axis)
+        e = gen_molecule(rng, "E", nl, "random", larger=True)
+    else:
+        s = gen_molecule(rng, "S", nl, "random", larger=True)
+        e = degenerate_mobile("E", template, axis)
+    mob = s if role == "start-mobile" else e
+    if not hub_is_degenerate(mob):
+        raise Harness(f"degenerate template {template}/{axis} is not exactly collinear")
+    return {"start": s, "end": e, "gen": {"kind": "degenerate", "verif_seed": seed, "name": f"{template}/{axis}/{role}",
+                                         "template": template, "axis": axis, "role": role, "ns": len(s["names"]), "ne": len(e["names"])}}
+
+
+def cases_degenerate(pair, seeds, steps=STEPS):
+    ns, ne = len(pair["start"]["names"]), len(pair["end"]["names"])
+    g = pair["gen"]
+    rng = _rng("opts", g["verif_seed"], g["name"])
+    k = 0
+    for (rname, restr), types in itertools.product(restraint_lists(rng, ns, ne)[:2], ([2], [0, 2], [1, 2], [0, 1, 2], None)):
+        for sd in seeds:
+            yield {"start": pair["start"], "end": pair["end"], "gen": g, "energy_budget": ENERGY_BUDGET,
+                   "restrictions": restr, "restr_kind": rname,
+                   "auto_guess": not (pair["start"].get("n_res", 1) > 1 and restr is None),
+                   "types": types, "ignore_h": bool(k % 2), "seed": sd,
+                   "steps_factor": steps[k % len(steps)], "scenario": SCENARIOS[(k // len(steps)) % 3],
+                   "repeat": sd == seeds[k % len(seeds)], "combo": k}
+        k += 1
+
+
 def restraint_lists(rng, ns, ne):
     out = [("none", None)]
     pairs = [(i, j) for i in range(ns) for j in range(ne)]
@@ -280,9 +372,6 @@ def type_subsets(mobile_atoms, allow2=True):
     return subs
 
 
-SCENARIOS = ("ctor", "setters", "reset")
-STEPS = (3, 8, 20)
-ENERGY_BUDGET = 20000
 
 
 def cases_for_pair(pair, seeds, allow2=True, steps=STEPS, with_default_types=True, all_seeds_every=1, budget=None):
@@ -454,13 +543,16 @@ def _energy_budget(limit):
     counter and a run with STEPS_FACTOR=40 can take millions of steps."""
     import gaddlemaps._backend as bk
     orig = bk.Chi2Calculator.__call__
-    n = [0]
+    n = [0, 0]          # energy evaluations, of which NaN (a proposal with non-finite coordinates was evaluated)
 
     def counted(self, mol2):
         n[0] += 1
         if n[0] > limit:
             raise _Budget()
-        return orig(self, mol2)
+        v = orig(self, mol2)
+        if v != v:
+            n[1] += 1
+        return v
     bk.Chi2Calculator.__call__ = counted
     try:
         yield n
@@ -468,7 +560,7 @@ def _energy_budget(limit):
         bk.Chi2Calculator.__call__ = orig
 
 
-def _align(ali, case, seed):
+def _align(ali, case, seed, stats=None):
     restr = case["restrictions"]
     restr = None if restr is None else [tuple(p) for p in restr]
     types = case["types"]
@@ -476,7 +568,9 @@ def _align(ali, case, seed):
     ali.STEPS_FACTOR = int(case["steps_factor"])      # instance attribute: the class default is left alone
     np.random.seed(seed)
     try:
-        with _quiet(), _energy_budget(int(case.get("energy_budget", ENERGY_BUDGET))):
+        with _quiet(), _energy_budget(int(case.get("energy_budget", ENERGY_BUDGET))) as counts:
+            if stats is not None:
+                stats.append(counts)
             ali.align_molecules(restrictions=restr, deformation_types=types, ignore_hydrogens=bool(case["ignore_h"]),
                                 auto_guess_protein_restrictions=bool(case.get("auto_guess", True)))
     except _Budget:
@@ -504,13 +598,16 @@ def run_case(case, paths=None, other_seed_repeat=False):
             extra_before = [_snap(S2), _snap(E2)]
         obs = {"exc": None, "S0": np.array(case["start"]["xyz"], dtype=float), "E0": np.array(case["end"]["xyz"], dtype=float)}
         ali = None
+        stats = []
         try:
             ali = _build(Alignment, case["scenario"], S, E, extra)
-            _align(ali, case, case["seed"])
+            _align(ali, case, case["seed"], stats)
         except Harness:
             raise
         except Exception as e:
             obs["exc"] = f"{type(e).__name__}: {e}"
+        cnt = stats[0] if stats else [0, 0]
+        obs["energy_evaluations"], obs["nan_proposals"] = int(cnt[0]), int(cnt[1])
         if ali is not None and ali.start is not None and ali.end is not None:
             obs["A1"], obs["atomsA"] = _snap(ali.start)
             obs["B1"], obs["atomsB"] = _snap(ali.end)
@@ -643,7 +740,8 @@ def check_clauses(case, obs):
     bad = [(w, int(np.argwhere(~np.isfinite(X))[0][0])) for w, X in (("start", A1), ("end", B1)) if not np.all(np.isfinite(X))]
     if bad:
         fail[C_FINITE] = "; ".join(f"Alignment.{w} atom {k} has a non-finite coordinate" for w, k in bad)
-    nt[C_FINITE] = True
+    # degenerate-geometry family: non-trivial only when the optimiser really evaluated a proposal with NaN coordinates
+    nt[C_FINITE] = True if case["gen"].get("kind") != "degenerate" else obs.get("nan_proposals", 0) > 0
     v = E0.mean(axis=0) - S0.mean(axis=0)
     moved = float(np.linalg.norm(v)) > 1e-6
     if A1.shape != S0.shape or B1.shape != E0.shape:
@@ -934,6 +1032,46 @@ def task_cyclic(tier, seed, start_mobile, sizes):
                      all_seeds_every=4 if tier == "quick" else 1)
 
 
+def task_degenerate(tier, seed, template):
+    """Mobile trees with a hub whose first three neighbours are exactly collinear: single-atom moves of the hub propose NaN
+    coordinates, which must never reach Alignment.start/.end."""
+    col = Collector(f"degenerate-geometry/{template}")
+    seeds = [0, 1, 2, 3] if tier == "quick" else list(range(8))
+    n_runs = n_nan = 0
+    for axis in DEGENERATE_AXES:
+        for role in ("start-mobile", "end-mobile", "tie"):
+            if axis == "diag" and role == "start-mobile":
+                continue            # the translation of start adds different amounts to x and y: no longer exact
+            try:
+                pair = gen_degenerate_pair(seed, template, axis, role)
+            except Harness as e:
+                col.harness.append(f"{template}/{axis}/{role}: {e}")
+                continue
+            d = tempfile.mkdtemp(prefix="b06_")
+            try:
+                paths = {"start": _write(d, "start", pair["start"]), "end": _write(d, "end", pair["end"])}
+                for case in cases_degenerate(pair, seeds):
+                    try:
+                        fail, nt, obs = evaluate(case, paths)
+                    except OverBudget:
+                        col.skipped.append(short(case))
+                        continue
+                    except Harness as e:
+                        col.harness.append(f"{short(case)}: {e}")
+                        continue
+                    n_runs += 1
+                    n_nan += obs.get("nan_proposals", 0) > 0
+                    col.add(case, fail, nt, obs)
+            finally:
+                shutil.rmtree(d, ignore_errors=True)
+    out = col.obligations()
+    out.append(ob(f"{PROP}/{FN_ALIGN}/guard.degenerate-family-reaches-nan-proposals/degenerate-geometry/{template}",
+                  "discharged" if n_runs and n_nan * 5 >= n_runs else "refuted", kind="guard", engine="smallscope",
+                  backend="runtime-contract", expect="discharged", evaluations=n_runs,
+                  reason=f"{n_nan} of {n_runs} runs evaluated at least one proposal with NaN coordinates (hub picked while its neighbours were still exactly collinear)"))
+    return out
+
+
 def task_shipped(tier, seed, k):
     pair = shipped_pairs()[k]
     mob = pair["start"] if len(pair["start"]["names"]) < len(pair["end"]["names"]) else pair["end"]
@@ -1062,6 +1200,8 @@ def bounded_tasks(prop, tier, seed):
             t.append((f"b06/trees/start={ns}/end={lo}..{hi}", task_trees, (tier, seed, ns, lo, hi, insts), lim))
     t.append(("b06/cyclic/start-mobile", task_cyclic, (tier, seed, True, [3, 4, 5, 6] if tier == "quick" else [3, 4, 5, 6, 8, 12]), lim))
     t.append(("b06/cyclic/end-mobile", task_cyclic, (tier, seed, False, [3, 4, 5, 6] if tier == "quick" else [3, 4, 5, 6, 8, 12]), lim))
+    for template in DEGENERATE_TEMPLATES:
+        t.append((f"b06/degenerate-geometry/{template}", task_degenerate, (tier, seed, template), lim))
     t.append(("b06/guards", task_guards, (tier, seed), lim))
     if tier != "quick":
         for a in (9, 12, 16, 24, 32, 40):
